@@ -28,6 +28,9 @@ var family = [][2]int{{2, 2}, {3, 3}, {4, 4}, {2, 3}, {3, 2}, {2, 4}, {4, 2}, {6
 
 func judge(p docgen.Plan, o *vh.Obs) {
 	out := billrun.Run(p)
+	if p.CustomerRates != "" {
+		o.Class("customer-rates")
+	}
 	o.Class("kind-" + p.Kind)
 	if out.Err != nil {
 		// the property speaks about documents that calculate successfully
